@@ -115,6 +115,7 @@ def run(ctx: Context) -> None:
         "(the sector sizes sum to the dimension formula, by induction on the cutoff with sympy deciding both steps); the "
         "full index is the sector offset plus the index within the sector. That the ranking formula inverts the "
         "enumeration order for every occupation vector is arithmetic over runtime values and is not decided."
+        " Further clauses: literal integer dtypes of the vectorised accumulators; loop invariant of the binomial accumulators (sympy)."
     )
     ctx.trusted_base = ["python ast", "sympy's simplification of binomial identities", "the normalisation map array->scalar listed in the rule"]
     ctx.rule("C06a", "each vectorised index / dimension function is its scalar twin applied elementwise (normalised syntax trees equal)")
